@@ -1848,7 +1848,7 @@ pub fn case_c06(tier: &str, seed: u64, case: u64) -> CaseResult {
 		res.run_digests.push((digest, true));
 		res.extra.insert("poolsim_runs".into(), json!(res.runs));
 		if let Some(v) = v {
-			let relevant = v.key == "C14:losing-fork-block-changed-pool" || v.key == "C14:submission-changed-chain-state" || v.key == "C14:refused-transaction-in-pool";
+			let relevant = v.key == "C14:losing-fork-block-changed-pool" || v.key == "C14:submission-changed-chain-state" || v.key == "C14:refused-transaction-in-pool" || v.key == "C14:chain-invalid-after-pool-traffic";
 			if relevant {
 				res.violations.push(Violation {
 					key: v.key.replace("C14:", "C06:pool-"),
